@@ -2429,6 +2429,206 @@ where
 //@@ END
 }
 }
+// =====================================================================
+// PROPS: each listed property as a lemma over the contracts (no code here: these can only fail if a contract is weakened)
+// =====================================================================
+pub mod props {
+use vstd::prelude::*;
+use std::time::Duration;
+use std::hash::{BuildHasher, Hash};
+use super::env::*;
+use super::cspec::*;
+use super::code::*;
+broadcast use {axiom_dur_nonneg};
+
+/// C01 reference model: `refm` = for every key the value of its most recent insert that has not been invalidated since
+pub open spec fn r_latest<K, V>(m: Map<KeyId, ValueEntry<K, V>>, refm: Map<KeyId, V>) -> bool {
+    forall|k: KeyId| #[trigger] m.contains_key(k) ==> refm.contains_key(k) && m[k].value == refm[k]
+}
+
+pub proof fn lemma_c01_housekeeping<K: Hash + Eq, V, S: BuildHasher + Clone>(pre: Cache<K, V, S>, post: Cache<K, V, S>, refm: Map<KeyId, V>)
+    requires Cache::rel_hk(pre, post), r_latest(pre.cache@, refm)
+    ensures r_latest(post.cache@, refm)
+{
+    let mid = choose|mid: Cache<K, V, S>| #[trigger] Cache::rel_evict_expired(pre, mid) && Cache::rel_evict_lru(mid, post);
+    assert forall|k: KeyId| #[trigger] post.cache@.contains_key(k) implies refm.contains_key(k) && post.cache@[k].value == refm[k] by {
+        assert(mid.cache@.contains_key(k)); assert(pre.cache@.contains_key(k));
+    }
+}
+/// a `get` hit returns exactly the reference value; the map keeps simulating the reference
+pub proof fn lemma_c01_get<K: Hash + Eq, V, S: BuildHasher + Clone>(mid: Cache<K, V, S>, post: Cache<K, V, S>, k: KeyId, ts: Option<Instant>, hash: u64, hit: bool, refm: Map<KeyId, V>)
+    requires Cache::rel_get(mid, post, k, ts, hash, hit), r_latest(mid.cache@, refm)
+    ensures r_latest(post.cache@, refm), hit ==> refm.contains_key(k) && mid.cache@[k].value == refm[k] && post.cache@[k].value == refm[k]
+{
+    assert forall|k2: KeyId| #[trigger] post.cache@.contains_key(k2) implies refm.contains_key(k2) && post.cache@[k2].value == refm[k2] by {
+        if hit { assert(mid.cache@.dom().contains(k2)); assert(mid.cache@.contains_key(k2)); } else { assert(mid.cache@.contains_key(k2)); }
+    }
+}
+pub proof fn lemma_c01_insert<K: Hash + Eq, V, S: BuildHasher + Clone>(mid: Cache<K, V, S>, post: Cache<K, V, S>, k: KeyId, v: V, w: u32, ts: Option<Instant>, hash: u64, refm: Map<KeyId, V>)
+    requires Cache::rel_insert(mid, post, k, v, w, ts, hash), r_latest(mid.cache@, refm), mid.wf()
+    ensures r_latest(post.cache@, refm.insert(k, v))
+{
+    let r2 = refm.insert(k, v);
+    let p = mid.deques.probation@;
+    assert forall|k2: KeyId| #[trigger] post.cache@.contains_key(k2) implies r2.contains_key(k2) && post.cache@[k2].value == r2[k2] by {
+        if k2 != k {
+            if Cache::case_update(mid, k) { assert(mid.cache@.dom().contains(k2)); assert(mid.cache@.contains_key(k2)); }
+            else if Cache::case_fits(mid, k, w) { assert(rem(mid.cache@, p, 0) == mid.cache@); assert(mid.cache@.contains_key(k2)); }
+            else if Cache::case_oversize(mid, k, w) || Cache::case_rejected(mid, k, w, hash) { assert(mid.cache@.contains_key(k2)); }
+            else {
+                let n = least_prefix(p, mid.cache@, w as int, 0).unwrap();
+                lemma_least_prefix(p, mid.cache@, w as int, 0);
+                lemma_rem_props(mid.cache@, p, n);
+                assert(rem(mid.cache@, p, n).contains_key(k2));
+            }
+        }
+    }
+}
+pub proof fn lemma_c01_c07_invalidate<K, V>(mid_m: Map<KeyId, ValueEntry<K, V>>, post_m: Map<KeyId, ValueEntry<K, V>>, k: KeyId, refm: Map<KeyId, V>)
+    requires post_m =~= mid_m.remove(k), r_latest(mid_m, refm)
+    ensures r_latest(post_m, refm.remove(k)),
+        // C07: immediate and precise
+        !post_m.contains_key(k), forall|k2: KeyId| k2 != k && #[trigger] mid_m.contains_key(k2) ==> post_m.contains_key(k2) && post_m[k2] == mid_m[k2],
+{ }
+pub proof fn lemma_c01_c07_invalidate_all<K, V>(post_m: Map<KeyId, ValueEntry<K, V>>, refm: Map<KeyId, V>)
+    requires post_m == Map::<KeyId, ValueEntry<K, V>>::empty()
+    ensures r_latest(post_m, Map::<KeyId, V>::empty()), forall|k: KeyId| !post_m.contains_key(k)
+{ }
+
+/// C05: an entry whose last-modified stamp is `b` is not returned by a lookup at any reading `now` with b + ttl <= now
+pub proof fn lemma_c05_no_hit_after_ttl<K: Hash + Eq, V, S: BuildHasher + Clone>(c: Cache<K, V, S>, k: KeyId, now: Instant, b: Instant)
+    requires c.wf(), c.time_to_live.is_some(), c.cache@.contains_key(k), c.cache@[k].tm() == Some(b),
+        b.t() + dur_ns(c.time_to_live.unwrap()) <= now.t(),
+    ensures !c.sp_hit(c.cache@, k, Some(now))
+{
+    assert(c.cache@[k].wo().is_some());
+}
+/// C06: the same for the idle timer and the last-accessed stamp
+pub proof fn lemma_c06_no_hit_after_tti<K: Hash + Eq, V, S: BuildHasher + Clone>(c: Cache<K, V, S>, k: KeyId, now: Instant, a: Instant)
+    requires c.wf(), c.time_to_idle.is_some(), c.cache@.contains_key(k), c.cache@[k].ta() == Some(a),
+        a.t() + dur_ns(c.time_to_idle.unwrap()) <= now.t(),
+    ensures !c.sp_hit(c.cache@, k, Some(now))
+{
+    assert(c.cache@[k].ao().is_some());
+}
+/// C05/C06: insert and update stamp the entry with the clock reading of that call (restart of both intervals);
+/// C06: a get hit stamps last-accessed with its reading; nothing else changes a stamp (contains_key: see lemma_c15)
+pub proof fn lemma_c05_c06_stamps<K: Hash + Eq, V, S: BuildHasher + Clone>(mid: Cache<K, V, S>, post: Cache<K, V, S>, k: KeyId, v: V, w: u32, ts: Option<Instant>, hash: u64)
+    requires Cache::rel_insert(mid, post, k, v, w, ts, hash), ts.is_some() == mid.sp_has_expiry(), post.cache@.contains_key(k)
+    ensures mid.time_to_live.is_some() ==> post.cache@[k].tm() == ts, mid.sp_has_expiry() ==> post.cache@[k].ta() == ts,
+{ }
+pub proof fn lemma_c06_get_refreshes<K: Hash + Eq, V, S: BuildHasher + Clone>(mid: Cache<K, V, S>, post: Cache<K, V, S>, k: KeyId, ts: Option<Instant>, hash: u64, hit: bool)
+    requires Cache::rel_get(mid, post, k, ts, hash, hit)
+    ensures hit && ts.is_some() ==> post.cache@[k].ta() == ts,
+        !hit ==> post.cache@ =~= mid.cache@,
+        forall|k2: KeyId| #[trigger] mid.cache@.contains_key(k2) && post.cache@.contains_key(k2) ==> post.cache@[k2].tm() == mid.cache@[k2].tm() && (k2 != k ==> post.cache@[k2].ta() == mid.cache@[k2].ta()),
+{ }
+
+/// C03: a new key whose weight fits in the remaining capacity is retained and evicts nobody
+pub proof fn lemma_c03_fits<K: Hash + Eq, V, S: BuildHasher + Clone>(mid: Cache<K, V, S>, post: Cache<K, V, S>, k: KeyId, v: V, w: u32, ts: Option<Instant>, hash: u64)
+    requires Cache::rel_insert(mid, post, k, v, w, ts, hash), Cache::case_fits(mid, k, w)
+    ensures post.cache@.contains_key(k), post.cache@[k].value == v,
+        forall|k2: KeyId| #[trigger] mid.cache@.contains_key(k2) ==> post.cache@.contains_key(k2) && post.cache@[k2] == mid.cache@[k2],
+{
+    assert(rem(mid.cache@, mid.deques.probation@, 0) == mid.cache@);
+}
+/// C03: within capacity and without expiry the housekeeping prefix removes nothing
+pub proof fn lemma_c03_housekeeping_idle<K: Hash + Eq, V, S: BuildHasher + Clone>(pre: Cache<K, V, S>, post: Cache<K, V, S>)
+    requires Cache::rel_hk(pre, post), !pre.sp_has_expiry(), pre.sp_weights_to_evict() == 0
+    ensures post.same_views(&pre)
+{
+    let mid = choose|mid: Cache<K, V, S>| #[trigger] Cache::rel_evict_expired(pre, mid) && Cache::rel_evict_lru(mid, post);
+    assert(mid.same_views(&pre));
+    assert(mid.max_capacity == pre.max_capacity);
+    assert(mid.sp_weights_to_evict() == 0);
+}
+
+/// C04: an insert of a NEW key never takes the cache above max_capacity (only an update that grows a weight can, C04's exception)
+pub proof fn lemma_c04_new_key_within_capacity<K: Hash + Eq, V, S: BuildHasher + Clone>(mid: Cache<K, V, S>, post: Cache<K, V, S>, k: KeyId, v: V, w: u32, ts: Option<Instant>, hash: u64)
+    requires Cache::rel_insert(mid, post, k, v, w, ts, hash), !Cache::case_update(mid, k), mid.wf(),
+        mid.max_capacity.is_some(), mid.weighted_size <= mid.max_capacity.unwrap(),
+    ensures post.weighted_size <= mid.max_capacity.unwrap(),
+        Cache::case_oversize(mid, k, w) ==> !post.cache@.contains_key(k),
+{
+    let p = mid.deques.probation@;
+    if Cache::case_admitted(mid, k, w, hash) {
+        lemma_least_prefix(p, mid.cache@, w as int, 0);
+    } else if Cache::case_fits(mid, k, w) {
+        assert(p.take(0).len() == 0);
+        assert(wsum(p.take(0), mid.cache@) == 0);
+    } else if Cache::case_oversize(mid, k, w) {
+        assert(post.cache@ =~= mid.cache@);
+    }
+}
+/// C04/C12: size eviction removes the shortest LRU prefix that brings the total back within capacity (or a full batch)
+pub proof fn lemma_c04_c12_eviction<K: Hash + Eq, V, S: BuildHasher + Clone>(pre: Cache<K, V, S>, post: Cache<K, V, S>)
+    requires Cache::rel_evict_lru(pre, post), pre.wf(), pre.max_capacity.is_some()
+    ensures ({
+        let n = pre.deques.probation@.len() - post.deques.probation@.len();
+        let p0 = pre.deques.probation@;
+        // exactly the first n residents in recency order are gone, nobody else
+        &&& (forall|i: int| 0 <= i < n ==> !post.cache@.contains_key(#[trigger] p0[i].key))
+        &&& (forall|i: int| n <= i < p0.len() ==> post.cache@.contains_key(#[trigger] p0[i].key) && post.cache@[p0[i].key] == pre.cache@[p0[i].key])
+        // and then the cache is within capacity, unless the batch limit or the end of the list was hit
+        &&& (post.weighted_size <= pre.max_capacity.unwrap() || n == 100 || n == p0.len())
+    })
+{
+    let n = pre.deques.probation@.len() - post.deques.probation@.len();
+    let p0 = pre.deques.probation@; let m0 = pre.cache@;
+    lemma_rem_props(m0, p0, n);
+    assert forall|i: int| n <= i < p0.len() implies post.cache@.contains_key(#[trigger] p0[i].key) && post.cache@[p0[i].key] == pre.cache@[p0[i].key] by {
+        assert(m0.contains_key(p0[i].key));
+        assert forall|j: int| 0 <= j < n implies (#[trigger] p0[j]).key != p0[i].key by { assert(p0[j].key != p0[i].key); }
+    }
+    assert forall|i: int| 0 <= i < p0.len() implies m0.contains_key((#[trigger] p0[i]).key) by { }
+    lemma_wsum_after_victims(m0, p0, n);
+    lemma_wsum_nonneg(p0.take(n), m0);
+}
+
+/// C13 scan resistance: a key that was never looked up (estimate 0) cannot displace anybody
+pub proof fn lemma_c13_scan_resistance<K: Hash + Eq, V, S: BuildHasher + Clone>(mid: Cache<K, V, S>, k: KeyId, w: u32, hash: u64)
+    requires mid.frequency_sketch.freq(hash) == 0
+    ensures !Cache::case_admitted(mid, k, w, hash)
+{
+    match least_prefix(mid.deques.probation@, mid.cache@, w as int, 0) {
+        Some(n) => { lemma_fsum_nonneg(mid.deques.probation@.take(n), mid.frequency_sketch); },
+        None => {},
+    }
+}
+pub proof fn lemma_fsum_nonneg(s: Seq<N>, sk: FrequencySketch)
+    ensures fsum(s, sk) >= 0
+    decreases s.len()
+{ if s.len() > 0 { lemma_fsum_nonneg(s.drop_last(), sk); } }
+
+/// C15: what `contains_key` leaves behind differs from the pre-state only by removals: same estimator, same stamps and
+/// values of every survivor, same relative recency order (and it is exactly the housekeeping every operation starts with)
+pub proof fn lemma_c15_pure_observation<K: Hash + Eq, V, S: BuildHasher + Clone>(pre: Cache<K, V, S>, post: Cache<K, V, S>)
+    requires Cache::rel_hk(pre, post)
+    ensures post.frequency_sketch == pre.frequency_sketch, post.frequency_sketch_enabled == pre.frequency_sketch_enabled,
+        forall|k: KeyId| #[trigger] post.cache@.contains_key(k) ==> pre.cache@.contains_key(k) && post.cache@[k] == pre.cache@[k],
+        ord_pres(pre.deques.probation@, post.deques.probation@),
+{
+    let mid = choose|mid: Cache<K, V, S>| #[trigger] Cache::rel_evict_expired(pre, mid) && Cache::rel_evict_lru(mid, post);
+    lemma_ord_trans(pre.deques.probation@, mid.deques.probation@, post.deques.probation@);
+    assert forall|k: KeyId| #[trigger] post.cache@.contains_key(k) implies pre.cache@.contains_key(k) && post.cache@[k] == pre.cache@[k] by {
+        assert(mid.cache@.contains_key(k));
+    }
+}
+
+/// C10/C11: in a well-formed cache the entries the map holds are in one-to-one correspondence with the list nodes:
+/// entry_count is their number and weighted_size the sum of their weights
+pub proof fn lemma_c10_c11_counters<K: Hash + Eq, V, S: BuildHasher + Clone>(c: Cache<K, V, S>)
+    requires c.wf()
+    ensures c.entry_count == c.deques.probation@.len(), c.weighted_size == wsum(c.deques.probation@, c.cache@),
+        forall|k: KeyId| #[trigger] c.cache@.contains_key(k) ==> 0 <= pos_of_key(c.deques.probation@, k) < c.deques.probation@.len() && c.deques.probation@[pos_of_key(c.deques.probation@, k)].key == k,
+        forall|i: int, j: int| 0 <= i < j < c.deques.probation@.len() ==> (#[trigger] c.deques.probation@[i]).key != (#[trigger] c.deques.probation@[j]).key,
+        forall|i: int| 0 <= i < c.deques.probation@.len() ==> c.cache@.contains_key((#[trigger] c.deques.probation@[i]).key),
+{
+    assert forall|k: KeyId| #[trigger] c.cache@.contains_key(k) implies 0 <= pos_of_key(c.deques.probation@, k) < c.deques.probation@.len() && c.deques.probation@[pos_of_key(c.deques.probation@, k)].key == k by {
+        lemma_pos_of_key(c.cache@, c.deques.probation@, c.deques.write_order@, c.time_to_live.is_some(), k);
+    }
+}
+} // mod props
 // vacuity guard: with every axiom of the assumed environment in scope `false` must NOT be provable
 pub mod canary {
 use vstd::prelude::*;
